@@ -22,6 +22,26 @@ Theorem C05_create_refusals : forall s i, i < length (nodes s) ->
 Proof. exact new_decision. Qed.
 Print Assumptions C05_create_refusals.
 
+(* remote_add_register: refused (quantumError) exactly at the register limit *)
+Theorem C05_create_register_refusals : forall s i mq, i < length (nodes s) ->
+  let nd := nth_node s i in
+  (snd (step s (ONewReg i mq)) = Err KQuantum <-> maxR nd <= numRegs nd) /\
+  ((exists v, snd (step s (ONewReg i mq)) = Ok v) <-> numRegs nd < maxR nd) /\
+  (snd (step s (ONewReg i mq)) = Ok (nextReg nd) <-> numRegs nd < maxR nd).
+Proof. exact newreg_decision. Qed.
+Print Assumptions C05_create_register_refusals.
+
+(* remote_new_qubit_inreg on a register its node lists: asked of a node that does not simulate the register (quantumError), node at
+   its qubit capacity or register full (noQubitError) *)
+Theorem C05_create_in_register_refusals : forall s i ow k r, i < length (nodes s) ->
+  find_reg k (regs (nth_node s ow)) = Some r ->
+  let nd := nth_node s i in
+  (snd (step s (ONewInReg i ow k)) = Err KQuantum <-> ow <> i) /\
+  (snd (step s (ONewInReg i ow k)) = Err KNoQubit <-> ow = i /\ (maxQ nd <= length (virt nd) \/ r_max r <= r_n r)) /\
+  ((exists v, snd (step s (ONewInReg i ow k)) = Ok v) <-> ow = i /\ length (virt nd) < maxQ nd /\ r_n r < r_max r).
+Proof. exact newinreg_decision. Qed.
+Print Assumptions C05_create_in_register_refusals.
+
 Theorem C05_send_refusals : forall s h t vi q, find_handle s h = Some (vi, q) ->
   (snd (step s (OSend h t)) = Err KVirtNet <-> length (nodes s) <= t) /\
   (snd (step s (OSend h t)) = Err KNoQubit <-> t < length (nodes s) /\ maxQ (nth_node s t) <= length (virt (nth_node s t))) /\
